@@ -3,7 +3,7 @@
 Specification: spec/TextWriters.tla (CSV: a header row for every run of records of one descriptor, then one row per
 record; line: one numbered block per record with one line per selected field; text: one item per record; field
 selection by fields / exclude) -- TLC checks RowPerRecord, HeaderPerRun, BlockNumbering over all descriptor sequences
-<= 5 x 5 option sets -- and spec/Trace_Text.tla.
+<= 5 x 6 option sets -- and spec/Trace_Text.tla.
 Binding: (a) all descriptor sequences <= 4 over {A, A2 (same name, other fields), B} x option sets are written through
 the real CSV, line and text writers and the output is parsed independently (csv.reader / block splitter); TLC compares
 the structure with the model.  (b) for every field type x value class (delimiters, quotes, CR / LF / CRLF, leading
@@ -19,7 +19,8 @@ from vf.common import MachineryError
 PROP = "C20"
 RES = ["_source", "_classification", "_generated", "_version"]
 OPTS = [{"fields": [], "excl": []}, {"fields": ["s", "n"], "excl": []}, {"fields": [], "excl": ["_generated", "s"]}, {"fields": ["other", "n", "bogus"], "excl": ["s"]},
-        {"fields": ["s", "n", "other"], "excl": ["s", "bogus"]}]         # a requested field that is also excluded
+        {"fields": ["s", "n", "other"], "excl": ["s", "bogus"]},         # a requested field that is also excluded
+        {"fields": ["other"], "excl": []}]                               # leaves some record types without any field (line writer: the block is still there)
 
 
 def descs():
@@ -79,7 +80,8 @@ def parse_lines(text, recs_by_id, verbose_types=None):
             if m:
                 names.append(m.group(1))
                 vals[m.group(1)] = m.group(3)
-        rid = int(vals.get("n", "0")) if vals.get("n", "").isdigit() else 0
+        # a block is identified by its `n` line; without one (the selection left it out) by its position in the output
+        rid = int(vals.get("n", "0")) if vals.get("n", "").isdigit() else (sorted(recs_by_id)[i // 2] if "n" not in names and i // 2 < len(recs_by_id) else 0)
         items.append({"k": "BLOCK", "no": no, "id": rid, "names": names})
         rec = recs_by_id.get(rid)
         if rec is None:
@@ -94,7 +96,7 @@ def run(tier):
 
     ctx = check.Ctx(PROP, tier)
     thorough = tier == "thorough"
-    ctx.design("TextWriters", "MC_TextWriters.cfg", "all descriptor sequences <= 5 over {A, A2, B} x 5 option sets", workers=8)
+    ctx.design("TextWriters", "MC_TextWriters.cfg", "all descriptor sequences <= 5 over {A, A2, B} x 6 option sets", workers=8)
     ctx.sensitivity("TextWriters", "MC_TextWriters_dev.cfg", "a header only before the first record must violate HeaderPerRun", "HeaderPerRun", workers=4)
     D = descs()
     tmp = common.scratch("c20")
@@ -123,6 +125,8 @@ def run(tier):
             for writer in ("csv", "line", "text"):
                 if writer == "text" and oi:
                     continue
+                if writer == "csv" and o["fields"] == ["other"]:
+                    continue      # rows without any column cannot be told from blank lines by a CSV parser
                 p = os.path.join(tmp, "o." + writer)
                 url = {"csv": "csvfile://", "line": "line://", "text": "text://"}[writer] + p + (url_opts(o) if writer != "text" else "")
                 c = {"writer": writer, "hist": hist, "opts": o, "raised": False, "exc": "none", "items": [], "values_ok": True, "readback_checked": False, "readback_ok": True}
@@ -155,7 +159,8 @@ def run(tier):
     vc = gen.value_classes()
     cells = [("plain", "abc"), ("comma", "a,b"), ("semicolon", "a;b"), ("tab", "a\tb"), ("quote", 'say "hi"'), ("squote", "it's"), ("cr", "a\rb"), ("lf", "a\nb"), ("crlf", "a\r\nb"),
              ("leadspace", "  lead"), ("trailspace", "trail  "), ("nonascii", "café 中 \U0001f600"), ("escape", "ab\udcff\udc80"), ("nul", "a\x00b"), ("empty", ""), ("onlyquote", '"'),
-             ("quotecomma", '",'), ("eqsign", "a = b"), ("dashes", "--[ RECORD 9 ]--")]
+             ("quotecomma", '",'), ("eqsign", "a = b"), ("dashes", "--[ RECORD 9 ]--"),
+             ("backslash_seq", "C:\\temp\\new\\notes.txt\\r")]       # the two CHARACTERS backslash + n (t, r) inside a value are not an escape of the template's
     plan = [("string", l, v) for l, v in cells]
     for T in vc:
         for label, v in vc[T]:
@@ -263,6 +268,27 @@ def run(tier):
             c["raised"], c["exc"] = True, type(e).__name__ + ":" + str(e)[:80]
         cases.append(c)
         ctx.case(("readback-wide", k))
+    # quoted cells that hold line breaks (RFC 4180 form, as csv.writer and the library's own writer produce them)
+    for label, cellsq in (("quoted CRLF in a cell", ["a\r\nb", "x", "y"]), ("quoted CR in a cell", ["p", "a\rb", "q"]), ("quoted LF in a cell", ["p", "q", "a\nb"]),
+                          ("quoted CRLF and CR", ["a\r\nb", "c\rd", "e"])):
+        p = os.path.join(tmp, "ml.csv")
+        rows = [["1", "2", "3"], cellsq, ["7", "8", "9"]]
+        with open(p, "w", newline="", encoding="utf-8") as f:
+            wr = csv.writer(f)
+            wr.writerow(["alpha", "beta", "gamma"])
+            wr.writerows(rows)
+        c = {"writer": "readback", "hist": [], "opts": OPTS[0], "raised": False, "exc": "none", "items": [], "values_ok": True, "readback_checked": True, "readback_ok": False, "delim": label}
+        try:
+            rd = CsvfileReader(p)
+            got = [[r.alpha, r.beta, r.gamma] for r in rd]
+            rd.close()
+            c["readback_ok"] = got == rows
+            if not c["readback_ok"]:
+                c["exc"] = "read back " + repr(got)[:70]
+        except Exception as e:
+            c["raised"], c["exc"] = True, type(e).__name__ + ":" + str(e)[:80]
+        cases.append(c)
+        ctx.case(("readback-multiline", label))
     for label, text, want in (("last row without a line break", "alpha,beta,gamma\n1,2,3\n4,5,6", [["1", "2", "3"], ["4", "5", "6"]]),
                               ("one data row, no line break", "alpha,beta,gamma\n1,2,3", [["1", "2", "3"]]),
                               ("wide, tab separated", "\t".join(["alpha", "beta", "gamma"] + [f"c{j:020d}" for j in range(70)]) + "\n" + "\t".join(["1", "2", "3"] + ["v"] * 70) + "\n" + "\t".join(["4", "5", "6"] + ["w"] * 70) + "\n",
